@@ -14,25 +14,20 @@ theorem oggspeex_info_decodes (h : Speex.Fields) (ok : h.OK) :
     Info.Speex.parse (Speex.build h) = .ok (Speex.expected h) :=
   Info.Speex.parse_build h ok
 
-/-- C04 side, as far as it holds: on EVERY byte string the result is a value, the format's error, or
-`struct.error` — which `OggFileType.load` does not catch -/
-theorem oggspeex_info_classes (f : Bytes) : ∀ e, Info.Speex.parse f = .error e → e = .mutagen ∨ e = .struct_ :=
-  loadWrap_struct _ (fun e h => Info.Speex.raw_classes f e h)
+/-- C04 side: on EVERY byte string the result is a value or the format's error (without the handlers of
+`OggFileType.load`: `error` or EOFError) -/
+theorem oggspeex_info_total (f : Bytes) : ∀ e, Info.Speex.parse f = .error e → e = .mutagen :=
+  loadWrap_clean _ (fun e h => Info.Speex.raw_classes f e h)
 
-/-- the witness: a first page whose packet is "Speex   " followed by 30 zero bytes (the header needs 56).
-`cdata.uint_le(packet[36:40])` gets two bytes. -/
+theorem oggspeex_info_raw_classes (f : Bytes) : ∀ e, Info.Speex.raw f = .error e → e = .mutagen ∨ e = .eof :=
+  fun e h => Info.Speex.raw_classes f e h
+
+/-- the former witness of an escaping `struct.error` (repaired in /repo 808f0c2): a first page whose packet
+is "Speex   " followed by 30 zero bytes (the header needs 56) — now OggSpeexHeaderError("truncated ID header") -/
 def speexShortHeader : Bytes :=
   renderB { packets := [Info.Speex.magic ++ zeros 30], first := true, serial := 1 }
 
-theorem oggspeex_struct_error_witness : Info.Speex.parse speexShortHeader = .error .struct_ := by
-  decide +kernel
-
-/-- C04 side, partial: when the packet in which the header search ends is at least 56 bytes long, the
-result is a value or the format's error -/
-theorem oggspeex_info_total_partial (f : Bytes)
-    (hlong : ∀ p, OggC.findHeader Info.Speex.magic f = .ok p → 56 ≤ (p.packets.headD []).length) :
-    ∀ e, Info.Speex.parse f = .error e → e = .mutagen :=
-  loadWrap_clean _ (fun e h => Info.Speex.raw_classes_long f hlong e h)
+example : Info.Speex.parse speexShortHeader = .error .mutagen := by decide +kernel
 
 /-! non-vacuity -/
 example : ({ versionString := zeros 20, versionId := 1, headerSize := 80, rate := 16000, mode := 1, modeBitstreamVersion := 4,
